@@ -59,7 +59,7 @@ def build(ctx):
     units = []
     for cap in ([2, 4] if ctx.tier == 'quick' else [2, 4, 16]):
         d = {'KCAP': str(cap)}
-        common = dict(defines=d, inst='Capacity=%d' % cap, timeout=900, unwind=cap + 2, replace=['slotIndex'],
+        common = dict(defines=d, inst='Capacity=%d' % cap, timeout=1500, unwind=cap + 2, replace=['slotIndex'],
                       replay=dict(prog='replay/c36_replay.cpp', args=lambda ce, u: ['6'], no_rlimit=True))
         units.append(Unit('ChaseLevDeque::slotPtr (index)', 'cbmc', S, 'slotIndex', defines=d, inst='Capacity=%d' % cap, expect=[r'postcondition']))
         for fn in ('CL_try_push', 'CL_try_pop', 'CL_try_pop_into', 'CL_try_steal', 'CL_try_steal_into'):
